@@ -201,10 +201,17 @@ def compiled_regex(p: Project, modname: str, value: ast.AST, where: str) -> Rege
     if not (isinstance(value, ast.Call) and (dotted(value.func) or "").endswith("compile") and value.args):
         raise AnalysisError(f"{where}: not an re.compile(...) call")
     pat = value.args[0]
-    if isinstance(pat, ast.JoinedStr) or not (isinstance(pat, ast.Constant) and isinstance(pat.value, str)):
-        raise AnalysisError(f"{where}: regex pattern is not a string constant")
+    if isinstance(pat, ast.Constant) and isinstance(pat.value, str):
+        text_ = pat.value
+    else:
+        # a pattern put together from module-level string constants (concatenation, join, f-string of constants)
+        from .fold import fold
+
+        text_ = fold(pat, {}, p, modname)
+        if not isinstance(text_, str):
+            raise AnalysisError(f"{where}: regex pattern is not a string constant")
     flags = value.args[1] if len(value.args) > 1 else next((k.value for k in value.keywords if k.arg == "flags"), None)
-    return Regex(pat.value, _flags_of(flags, p.module(modname)), where, value)
+    return Regex(text_, _flags_of(flags, p.module(modname)), where, value)
 
 
 def module_regex(p: Project, modname: str, name: str) -> Regex:
